@@ -44,7 +44,7 @@ CHECKS = {
     "C17": {"level": MC, "runs": [{"binary": E2_FILE, "flavour": "asanub"}]},
     "C18": {"level": MC, "runs": [{"binary": E2_PATH, "flavour": "asanub"}]},
     "C19": {"level": MC, "runs": [{"binary": E2_LOCALE, "flavour": "asanub"}]},
-    "C07": {"level": MC, "runs": [{"binary": E1_POOL, "flavour": "plain"}, {"binary": E1_POOL, "flavour": "asan", "args": ["--max-bound", "1"]}]},
+    "C07": {"level": MC, "runs": [{"binary": E1_POOL, "flavour": "plain"}, {"binary": E1_POOL, "flavour": "asan", "args": ["--max-bound", "2"]}]},
     "C08": {"level": MC, "runs": [{"binary": E1_POOL, "flavour": "plain"}]},
     "C15": {"level": MC, "runs": [{"binary": E1_RACE, "flavour": "tsan"}]},
     "C20": {"level": MC, "runs": [{"binary": E1_THREAD, "flavour": "plain"}, {"binary": E1_THREAD, "flavour": "asan"}]},
